@@ -108,6 +108,7 @@ def prop_C11(run):
     rules_det.lossy_apis(run)
     rules_det.ceil_divisions(run)
     rules_det.intelhex_address_width(run)
+    rules_det.intelhex_unit_aligned(run)
     validators_agree(run)
     run.rules_run += ["TAB-fmt OutputFormat variant -> formatter(constants), wrappers, panic-guarded parameter domains, divisors nonzero"]
 
